@@ -203,7 +203,9 @@ fn scan(srv: &mut Server, order: &str, n: usize, limit: Option<u64>) -> ScanObs 
     let mut tok: Option<String> = None;
     let lim = limit.map(|l| format!("&limit={}", l)).unwrap_or_default();
     loop {
-        if pages.len() >= n + 2 {
+        // give up after |coll| + 2 requests, or as soon as more items have
+        // arrived than the collection holds (something was served twice)
+        if pages.len() >= n + 2 || pages.iter().map(|p| p.items.len()).sum::<usize>() > n {
             return ScanObs::Runaway(pages);
         }
         let target = match &tok {
